@@ -174,18 +174,55 @@ Proof.
   intros Hp. apply sorted_query_order_irrelevant. apply Permutation_map. apply filter_perm. apply Permutation_map. exact Hp.
 Qed.
 
-(* instantiated with the functions normalize_url uses *)
-Theorem normalize_query_order_irrelevant (o : n_opts) (df : option (list str)) (l1 l2 : list qitem) :
-  Permutation l1 l2 ->
-  let stage l :=
-    let qsl := filter (fun it => negb (should_strip_query_item o df it)) (Quote.safely_unquote_qsl l) in
-    let qsl := if n_quoted o then Quote.safely_quote_qsl qsl else qsl in
-    sort_stable qsl_sort_leb qsl in
-  stage l1 = stage l2.
+(* ---------------- the query stage of normalize_url (the functions normalize_core calls) ---------------- *)
+Definition unquote_item (it : qitem) : qitem :=
+  (Quote.safely_unquote_query_item (fst it), match snd it with Some v => Some (Quote.safely_unquote_query_item v) | None => None end).
+Definition quote_item (it : qitem) : qitem :=
+  (Quote.safely_quote (fst it), match snd it with Some v => Some (Quote.safely_quote v) | None => None end).
+
+Lemma kept_items_spec o df q :
+  q <> [] -> kept_query_items o df q = filter (fun it => negb (should_strip_query_item o df it)) (map unquote_item (safe_qsl_iter q)).
+Proof. intros H. unfold kept_query_items. destruct q; [congruence|reflexivity]. Qed.
+
+(* C04: with sort_query, two queries holding the same items in any order give the same normalized query *)
+Theorem normalize_query_order_irrelevant (o : n_opts) (df : option (list str)) (q1 q2 : str) :
+  sort_query o = true -> q1 <> [] -> q2 <> [] ->
+  Permutation (safe_qsl_iter q1) (safe_qsl_iter q2) ->
+  finish_query_items o (kept_query_items o df q1) = finish_query_items o (kept_query_items o df q2).
 Proof.
-  intros Hp. cbv zeta. apply sorted_query_order_irrelevant.
-  assert (Permutation (filter (fun it => negb (should_strip_query_item o df it)) (Quote.safely_unquote_qsl l1))
-                      (filter (fun it => negb (should_strip_query_item o df it)) (Quote.safely_unquote_qsl l2))) as H.
-  { apply filter_perm. unfold Quote.safely_unquote_qsl, Quote.map_qsl. apply Permutation_map. exact Hp. }
+  intros Hs H1 H2 Hp. unfold finish_query_items. rewrite Hs.
+  apply sorted_query_order_irrelevant.
+  assert (Permutation (kept_query_items o df q1) (kept_query_items o df q2)) as H.
+  { rewrite !kept_items_spec by assumption. apply filter_perm. apply Permutation_map. exact Hp. }
   destruct (n_quoted o); [|exact H]. unfold Quote.safely_quote_qsl, Quote.map_qsl. apply Permutation_map. exact H.
 Qed.
+
+(* C05: the query stage only deletes: every item of the result is the (unquoted, and in quoted mode re-quoted)
+   image of an item of the input that the filters keep *)
+Theorem normalize_query_only_deletes (o : n_opts) (df : option (list str)) (q : str) (it : qitem) :
+  In it (finish_query_items o (kept_query_items o df q)) ->
+  exists it0, In it0 (safe_qsl_iter q) /\
+              should_strip_query_item o df (unquote_item it0) = false /\
+              it = (if n_quoted o then quote_item (unquote_item it0) else unquote_item it0).
+Proof.
+  intros Hin. unfold finish_query_items in Hin.
+  assert (In it (if n_quoted o then Quote.safely_quote_qsl (kept_query_items o df q) else kept_query_items o df q)) as Hin'.
+  { destruct (sort_query o); [|exact Hin].
+    eapply Permutation_in; [|exact Hin]. apply sort_perm. }
+  clear Hin.
+  destruct q as [|c q]; [destruct (n_quoted o); destruct Hin'|].
+  rewrite kept_items_spec in Hin' by discriminate.
+  destruct (n_quoted o).
+  - unfold Quote.safely_quote_qsl, Quote.map_qsl in Hin'. apply in_map_iff in Hin'. destruct Hin' as (x & <- & Hx).
+    apply filter_In in Hx. destruct Hx as [Hx Hk]. apply in_map_iff in Hx. destruct Hx as (it0 & <- & H0).
+    exists it0. split; [exact H0|]. split; [apply negb_true_iff; exact Hk|reflexivity].
+  - apply filter_In in Hin'. destruct Hin' as [Hx Hk]. apply in_map_iff in Hx. destruct Hx as (it0 & <- & H0).
+    exists it0. split; [exact H0|]. split; [apply negb_true_iff; exact Hk|reflexivity].
+Qed.
+
+(* C05: without sort_query (and quoting) the surviving items keep their relative order: the result is a filter of a map *)
+Theorem normalize_query_keeps_order (o : n_opts) (df : option (list str)) (q : str) :
+  sort_query o = false -> n_quoted o = false -> q <> [] ->
+  finish_query_items o (kept_query_items o df q) =
+  filter (fun it => negb (should_strip_query_item o df it)) (map unquote_item (safe_qsl_iter q)).
+Proof. intros Hs Hq Hn. unfold finish_query_items. rewrite Hs, Hq. apply kept_items_spec. exact Hn. Qed.
